@@ -362,3 +362,57 @@ Theorem C15_nonvacuous_metric :
   exists s, evaluate_all csucc Z ccost Z.ltb route_desc single (dist_cell (fun _ _ => 0) abs_dist)
               (PNode (PLeaf [(nm_route, nm_job 8 3)]) (PLeaf [(nm_route, nm_job 7 2)])) = RSuccess s /\ ccost s = 2.
 Proof. exact metric_example. Qed.
+
+(* ---------- best_known_cost only prunes: the per-pair result fed to the reduction ---------- *)
+From VRP Require Import Model.MultiPerm Proofs.MultiPermP.
+
+(* general form: for a pair that is ok, the scan started from ANY best-known cost a (= the cost the fold accumulator holds) either
+   returns the pair's own full result (when that is strictly cheaper than a) or a failure (when it is not, so the reducer keeps the
+   accumulator): the accumulator can hide a pair's result only when that result could not have become the minimum *)
+Theorem C15_best_known_only_prunes : forall (S C : Type) (cost : S -> C) (lt : C -> C -> bool)
+  (rc : C) (run : option C -> result S),
+  cell_ok S C cost lt (CEval rc run) -> forall a : C,
+  (exists s, run None = RSuccess s /\ lt (cost s) a = true /\ run (Some a) = RSuccess s) \/
+  ((forall s, run None = RSuccess s -> lt (cost s) a = false) /\ exists f, run (Some a) = RFailure f).
+Proof. exact best_known_only_prunes. Qed.
+
+(* eval_multi (outer fold over the allowed permutations, MultiContext::promote as written): for every list of permutation results
+   without a stopped failure and every best-known cost a, the result is the one obtained without a best-known cost (ALL
+   permutations analysed, the cheapest kept) when that is strictly cheaper than a, and a failure otherwise *)
+Theorem C15_multi_respects_best_known : forall (S C : Type) (cost : S -> C) (lt : C -> C -> bool),
+  (forall a b c, lt a b = true -> lt b c = true -> lt a c = true) ->
+  (forall a b c, lt a b = false -> lt b c = false -> lt a c = false) ->
+  forall (job : Z) (perms : list (perm_res S)), no_stopped S perms -> forall a : C,
+  match multi_run S C cost lt job perms None with
+  | RSuccess s => if lt (cost s) a then multi_run S C cost lt job perms (Some a) = RSuccess s
+                  else exists f, multi_run S C cost lt job perms (Some a) = RFailure f
+  | RFailure _ => exists f, multi_run S C cost lt job perms (Some a) = RFailure f
+  end.
+Proof. exact multi_respects_known. Qed.
+
+(* hence a multi job is a pair the evaluate_all theorems apply to, whenever the route-level estimate is a lower bound of every
+   permutation's cost *)
+Theorem C15_multi_cell_ok : forall (S C : Type) (cost : S -> C) (lt : C -> C -> bool),
+  (forall a b c, lt a b = true -> lt b c = true -> lt a c = true) ->
+  (forall a b c, lt a b = false -> lt b c = false -> lt a c = false) ->
+  forall (rc : C) (job : Z) (perms : list (perm_res S)), no_stopped S perms ->
+  (forall s, In (PSucc s) perms -> lt (cost s) rc = false) ->
+  cell_ok S C cost lt (multi_cell S C cost lt rc job perms).
+Proof. exact multi_cell_ok. Qed.
+
+(* the hypothesis `respects_known` is needed: an eval_multi that analyses only the first permutation when a best-known cost is passed
+   (seeded change C15-5) makes evaluate_all depend on the split: one chunk keeps cost 10, two chunks find cost 0 = the minimum *)
+Theorem C15_first_permutation_only_split_dependent_refuted :
+  exists (ev : nat -> nat -> cell (Z * Z) Z),
+    ev 0%nat 1%nat = CEval 0 (multi_run_first_only (Z * Z) Z fst Z.ltb 7 [PSucc (20, 1); PSucc (0, 2)]) /\
+    evaluate_all (Z * Z) Z fst Z.ltb nat nat ev (PLeaf [(O, O); (O, 1%nat)]) = RSuccess (10, 0) /\
+    evaluate_all (Z * Z) Z fst Z.ltb nat nat ev (PNode (PLeaf [(O, O)]) (PLeaf [(O, 1%nat)])) = RSuccess (0, 2) /\
+    best_of_all (Z * Z) Z fst Z.ltb nat nat ev [O] [O; 1%nat] = RSuccess (0, 2).
+Proof. exact (ex_intro _ w_ev (conj eq_refl first_permutation_only_split_dependent)). Qed.
+
+Theorem C15_nonvacuous_multi :
+  no_stopped (Z * Z) [PFail 2 false; PSucc (20, 1); PSucc (0, 2)] /\
+  multi_run (Z * Z) Z fst Z.ltb 7 [PFail 2 false; PSucc (20, 1); PSucc (0, 2)] None = RSuccess (0, 2) /\
+  multi_run (Z * Z) Z fst Z.ltb 7 [PFail 2 false; PSucc (20, 1); PSucc (0, 2)] (Some 10) = RSuccess (0, 2) /\
+  multi_run (Z * Z) Z fst Z.ltb 7 [PFail 2 false; PSucc (20, 1); PSucc (0, 2)] (Some 0) = RFailure (mkFail UNKNOWN false (Some 7)).
+Proof. exact multi_nonvacuous. Qed.
